@@ -412,7 +412,9 @@ Proof.
     + destruct (needs_retry st m) as [e|].
       * intros _. cbn [fst snd]. rewrite esum_cons, esum_nil, net_retry_msg by assumption.
         destruct (b_closing st); [lia|]. destruct (is_fin m); unfold bp_w, with_cur; cbn [b_buf b_wait]; lia.
-      * intros _. apply recv_data_balance; assumption.
+      * destruct (is_fin m).
+        -- intros _. cbn [fst snd]. rewrite esum_cons, esum_nil, net_retry_msg by assumption. lia.
+        -- intros _. apply recv_data_balance; assumption.
   - intros _. destruct (b_mode st), (b_wait st); cbn [fst snd]; unfold bp_w, with_mode; cbn [b_buf b_wait]; simpl; lia.
   - intros _. destruct (b_timer st && flush_poll st); cbn [fst snd]; unfold bp_w; cbn [b_buf b_wait]; simpl; lia.
   - destruct (flush_enabled st); [|intros _; cbn [fst snd]; simpl; lia].
